@@ -49,6 +49,7 @@ def run(ctx):
     dyn = [u for u in C05.directed_units(rng, ws[:2], 0) if ' a[n];' in u[0] or ' a[j];' in u[0]]
     sweeps.diff_sweep(ctx, 'dynamic array lengths over the boundary grid (negative, zero, huge) and indices', dyn, extra=halts_extra(ctx), monitor=True)
     mon_units = program_units(rng, 60 if q else 600, ['arrays', 'strings', 'calls', 'globals', 'overloads', 'tt', 'faults'], ws, cfgs_per=3, seed_base=ctx.seed + 401)
+    sweeps.diff_sweep(ctx, 'aliasing / evaluation-order corpus (global index or operand modified by the other operand, same array passed twice)', sweeps.alias_units(ws), extra=halts_extra(ctx), monitor=True)
     sweeps.diff_sweep(ctx, 'entitlement monitor on generated programs (all features)', mon_units, extra=halts_extra(ctx), monitor=True)
     results = diffrun.run_units(units, want_ref=False, watch_labels='monitor')
     h = halts_extra(ctx)
